@@ -1,0 +1,34 @@
+//go:build verif
+
+package sql
+
+import (
+	"github.com/jdillenkofer/pithos/internal/storage/database/repository/object"
+	"github.com/jdillenkofer/pithos/internal/storage/metadatapart/metadatastore"
+)
+
+// Pure specification functions used by the contracts in zz_contracts_verif.go (written from the property statements).
+
+// specSameOpt: two optional strings carry the same value (both absent, or both present and equal).
+func specSameOpt(a *string, b *string) bool {
+	if a == nil || b == nil {
+		return a == nil && b == nil
+	}
+	return *a == *b
+}
+
+// specRowCarriesMetadata: the object row holds exactly the six user-modifiable system metadata values of m
+// (absent where m has none).
+func specRowCarriesMetadata(e *object.Entity, m metadatastore.ObjectMetadata) bool {
+	return e != nil && specSameOpt(e.CacheControl, m.CacheControl) && specSameOpt(e.ContentDisposition, m.ContentDisposition) &&
+		specSameOpt(e.ContentEncoding, m.ContentEncoding) && specSameOpt(e.ContentLanguage, m.ContentLanguage) &&
+		specSameOpt(e.Expires, m.Expires) && specSameOpt(e.WebsiteRedirectLocation, m.WebsiteRedirectLocation)
+}
+
+// specRowsAgreeOnMetadata: two object rows hold the same content type, system metadata and storage class.
+func specRowsAgreeOnMetadata(a *object.Entity, b *object.Entity) bool {
+	return a != nil && b != nil && specSameOpt(a.ContentType, b.ContentType) && specSameOpt(a.CacheControl, b.CacheControl) &&
+		specSameOpt(a.ContentDisposition, b.ContentDisposition) && specSameOpt(a.ContentEncoding, b.ContentEncoding) &&
+		specSameOpt(a.ContentLanguage, b.ContentLanguage) && specSameOpt(a.Expires, b.Expires) &&
+		specSameOpt(a.WebsiteRedirectLocation, b.WebsiteRedirectLocation)
+}
